@@ -38,7 +38,7 @@ def run(P, fn, args, heap0=None, hooks=None, budget=300000, max_forks=16, single
 def set_out(it, arg, value=U):
     """Model `*arg = value` for an out-parameter passed as `&local` to a hooked callee."""
     if isinstance(arg, tuple) and arg and arg[0] == "ADDR":
-        it.cur_env[arg[1]] = value
+        (arg[3] if len(arg) > 3 else it.cur_env)[arg[1]] = value
     elif isinstance(arg, Ptr) and it.heap is not None and isinstance(arg.off, int):
         it.heap[(arg.base, arg.off)] = value
 
